@@ -48,7 +48,8 @@ Init == st = "init" /\ sds = <<>> /\ ras = <<>> /\ nk = 0 /\ out = [ret |-> 0] /
 Setup == /\ st = "init" /\ st' = "ready" /\ Log("Setup", [a |-> 0], [ret |-> 0]) /\ UNCHANGED <<sds, ras, nk>>
 
 \* ---- datasets ----
-Family(w) == IF w = "DFSD" THEN "old" ELSE "new"
+\* ("DFSDS": the single-file interface writing the dataset in two hyperslabs: DFSDstartslab / DFSDwriteslab x 2 / DFSDendslab)
+Family(w) == IF w \in {"DFSD", "DFSDS"} THEN "old" ELSE "new"
 \* known findings: a dataset added by DFSD to a file with SD structure is invisible to SD/NC; SD cannot add a
 \* dataset to a file written by DFSD
 ClearSds(w) == \A i \in 1..Len(sds) : Family(sds[i].writer) = Family(w)
@@ -57,7 +58,7 @@ ClearSds(w) == \A i \in 1..Len(sds) : Family(sds[i].writer) = Family(w)
 WriteSds(w, shape, ty, sc, unl) ==
     /\ st = "ready" /\ nk < MaxObjs
     /\ Len(sc) = Len(shape)
-    /\ (w = "NC") => (\A i \in 1..Len(sc) : sc[i] = 0)
+    /\ (w \in {"NC", "DFSDS"}) => (\A i \in 1..Len(sc) : sc[i] = 0)
     /\ unl => (w = "SD" /\ sc[1] = 0)
     /\ Mix \/ ClearSds(w)
     \* (the netCDF-style calls of this library can only create a file, not extend one: NC writes first)
@@ -73,7 +74,7 @@ GrowSds(i, n) ==
     /\ sds' = [sds EXCEPT ![i].shape = [@ EXCEPT ![1] = @ + n]]
     /\ Log("GrowSds", [k |-> sds[i].k, type |-> sds[i].type, shape |-> sds[i].shape, n |-> n], [ret |-> 0])
     /\ UNCHANGED <<st, ras, nk>>
-ScalesSeen(r, e) == IF r = "DFSD" /\ e.writer # "DFSD" THEN [i \in 1..Len(e.scales) |-> 0] ELSE e.scales
+ScalesSeen(r, e) == IF r = "DFSD" /\ e.writer \notin {"DFSD", "DFSDS"} THEN [i \in 1..Len(e.scales) |-> 0] ELSE e.scales
 \* listing through SD or DFSD: shape, number type, seed, scales
 ListSds(r) ==
     /\ st = "ready" /\ r \in {"SD", "DFSD"}
